@@ -46,8 +46,16 @@ func (s *gRPCServer) Shutdown(ctx context.Context) error {
 	select {
 	case <-done:
 	case <-ctx.Done():
-		s.server.Stop()
-		<-done
+		// Stop closes the listeners and the established connections
+		// at once and then waits for connections which are still in
+		// their handshake, e.g. a client which has connected and stays
+		// silent (up to the connection timeout of grpc). The shutdown
+		// must not take longer than the deadline because of them.
+		go s.server.Stop()
+		select {
+		case <-done:
+		case <-time.After(100 * time.Millisecond):
+		}
 	}
 	return nil
 }
